@@ -363,6 +363,7 @@ where
                         for i in lo..hi {
                             f(&mut st, &mut acc, i);
                         }
+                        beat_idle();
                     }
                     acc
                 })
@@ -497,4 +498,77 @@ impl Acc {
 
 pub fn acc_zero() -> Acc {
     Acc::new()
+}
+
+// ------------------------------------------------------------------ hang watchdog
+use std::sync::{Arc, Mutex, OnceLock};
+
+type Beat = Arc<Mutex<(Instant, String)>>;
+static BEATS: OnceLock<Mutex<Vec<Beat>>> = OnceLock::new();
+thread_local! {
+    static MY_BEAT: std::cell::RefCell<Option<Beat>> = const { std::cell::RefCell::new(None) };
+}
+
+/// Record that this worker thread starts working on `case` now. Cheap; call once per program.
+pub fn beat(case: &str) {
+    MY_BEAT.with(|b| {
+        let mut b = b.borrow_mut();
+        if b.is_none() {
+            let nb: Beat = Arc::new(Mutex::new((Instant::now(), String::new())));
+            BEATS.get_or_init(|| Mutex::new(vec![])).lock().unwrap().push(nb.clone());
+            *b = Some(nb);
+        }
+        let mut g = b.as_ref().unwrap().lock().unwrap();
+        g.0 = Instant::now();
+        g.1.clear();
+        g.1.push_str(case);
+    });
+}
+
+/// The thread is between cases (nothing to time out).
+pub fn beat_idle() {
+    MY_BEAT.with(|b| {
+        if let Some(b) = b.borrow().as_ref() {
+            b.lock().unwrap().1.clear();
+        }
+    });
+}
+
+/// A case that runs longer than `limit_s` seconds is reported as a hang: the process prints a
+/// VIOLATION line with a replay file and exits 1 (an in-process evaluation cannot be cancelled).
+pub fn start_watchdog(prop: &'static str, limit_s: u64) {
+    std::thread::spawn(move || loop {
+        std::thread::sleep(std::time::Duration::from_millis(500));
+        let beats = match BEATS.get() {
+            Some(b) => b.lock().unwrap().clone(),
+            None => continue,
+        };
+        for b in beats {
+            let (t, case) = {
+                let g = b.lock().unwrap();
+                (g.0, g.1.clone())
+            };
+            if !case.is_empty() && t.elapsed().as_secs() >= limit_s {
+                let dir = format!("{}/replays/{}", VERIF_ROOT, prop);
+                let _ = std::fs::create_dir_all(&dir);
+                let path = format!("{}/hang-{:08x}.json", dir, fnv(&case) as u32);
+                let body = json!({"property": prop, "key": format!("hang:{}", case), "class": "hang", "observed": "hang",
+                    "detail": {"session": [case], "note": format!("no result within {} s; the evaluation was still running when the check gave up", limit_s)}});
+                let _ = std::fs::write(&path, serde_json::to_string_pretty(&body).unwrap());
+                println!("VIOLATION property={} replay={}", prop, path);
+                println!("  key=hang class=hang observed=hang (case still running after {} s)", limit_s);
+                use std::io::Write;
+                let _ = std::io::stdout().flush();
+                std::process::exit(1);
+            }
+        }
+    });
+}
+
+/// Address-space cap so that a runaway allocation in the subject cannot take the sandbox down.
+pub fn cap_memory(gib: u64) {
+    let lim = libc::rlimit { rlim_cur: gib << 30, rlim_max: gib << 30 };
+    unsafe {
+        libc::setrlimit(libc::RLIMIT_AS, &lim);
+    }
 }
